@@ -146,6 +146,9 @@ where
             }
         }
     }
+    for (_, p) in &pool.structured {
+        cands.push(("structured-x-point (incl. points shared with the target curve)", p.clone()));
+    }
     let h = &n / rr;
     for f in &pool.full {
         let c = curve.mul(&rr, f);
